@@ -17,8 +17,13 @@
 //           (the body of train() for >2 classes, also usable with two classes)
 //  LIN   id type bias C eps maxiter seed direct n d y.. x..
 //        -> L id stop iters acc value rows W w(rows*d) B offset(nb)       LinearCSvmTrainer / QpMcLinear* / QpBoxLinear
-//  STEPS id type C eps shrinkperiod nsteps randsel seed kernel gamma n d y.. x..
-//        -> RUN/LN/KM/SS|SB/ST/EV/END lines: the real QpMcSimplexDecomp / QpMcBoxDecomp driven step by step
+//  LSTEPS id type C eps nepochs seed n d y.. x..
+//        -> LS lines: the real calcGradient / solveSub / updateWeightVectors of QpMcLinear<type>, one example at a time (own epoch loop)
+//  BLSTEPS id bound reg offset nepochs seed n d y.. x..
+//        -> BL lines: the real QpBoxLinear::solve, one epoch per call (warm start), with the epoch's schedule re-derived from the seed
+//  STEPS id type C eps shrinkperiod nsteps mode seed kernel gamma n d y.. x..     (mode: bit 0 random working sets, bit 1 addDeltaLinear events)
+//        -> RUN/SS|SB/ST/EV/END lines: the real QpMcSimplexDecomp / QpMcBoxDecomp driven step by step; for the state model
+//           C16State.v additionally MH (constants) MI (constructor inputs) MS (full positional state) MO (operation) MK (kernel matrix)
 #include <cstdio>
 #include <cstdlib>
 #include <cstring>
@@ -265,12 +270,14 @@ template<class Mx> struct Access<QpMcSimplexDecomp<Mx> > {
 	typedef QpMcSimplexDecomp<Mx> P;
 	static std::size_t exOf(P& q, std::size_t v) { return q.m_variables[v].example; }
 	static double varsum(P& q, std::size_t e) { return q.m_examples[e].varsum; }
+	static double ediag(P& q, std::size_t e) { return q.m_examples[e].diagonal; }
 	static const bool simplex = true;
 };
 template<class Mx> struct Access<QpMcBoxDecomp<Mx> > {
 	typedef QpMcBoxDecomp<Mx> P;
 	static std::size_t exOf(P& q, std::size_t v) { return q.m_variables[v].i; }
 	static double varsum(P&, std::size_t) { return 0.0; }
+	static double ediag(P&, std::size_t) { return 0.0; }
 	static const bool simplex = false;
 };
 
@@ -290,6 +297,47 @@ static void dumpState(P& q, const char* tag, const std::string& id) {
 			std::printf(" %a %a %a %d", q.m_alpha(v), q.m_gradient(v), q.m_linear(v), (int)(v < q.m_activeVar));
 		}
 	}
+	std::printf("\n");
+}
+
+// full POSITIONAL state for the state model C16State.v (one MS line per state):
+//  MS id activeVar activeEx bUnshrinked V {alpha grad lin example p index diagonal}*nVar E {index y active varsum diagonal var[P] avar[P]}*n
+template<class P>
+static void dumpFull(P& q, const std::string& id) {
+	typedef Access<P> Ac;
+	std::size_t n = q.m_numExamples, cp = q.m_cardP;
+	std::printf("MS %s %zu %zu %d V", id.c_str(), q.m_activeVar, q.m_activeEx, (int)q.bUnshrinked);
+	for (std::size_t v = 0; v < q.m_numVariables; v++)
+		std::printf(" %a %a %a %zu %zu %zu %a", q.m_alpha(v), q.m_gradient(v), q.m_linear(v), Ac::exOf(q, v),
+			(std::size_t)q.m_variables[v].p, (std::size_t)q.m_variables[v].index, q.m_variables[v].diagonal);
+	std::printf(" E");
+	for (std::size_t e = 0; e < n; e++) {
+		std::printf(" %zu %u %zu %a %a", q.m_examples[e].index, q.m_examples[e].y, q.m_examples[e].active, Ac::varsum(q, e), Ac::ediag(q, e));
+		for (std::size_t pp = 0; pp < cp; pp++) std::printf(" %zu", q.m_examples[e].var[pp]);
+		for (std::size_t pp = 0; pp < cp; pp++) std::printf(" %zu", q.m_examples[e].avar[pp]);
+	}
+	std::printf("\n");
+}
+// MH id simplex P classes n C  K {entry(i,j)}*n*n  M rows {default size {index value}*size}*rows : the constants of the state model
+template<class P, class Mx, class F>
+static void dumpHeader(P& q, const std::string& id, Mx& matrix, QpSparseArray<F> const& M, double C) {
+	std::size_t n = q.m_numExamples;
+	std::printf("MH %s %d %zu %zu %zu %a K", id.c_str(), (int)Access<P>::simplex, (std::size_t)q.m_cardP, (std::size_t)q.m_classes, n, C);
+	for (std::size_t i = 0; i < n; i++) for (std::size_t j = 0; j < n; j++) std::printf(" %a", (double)matrix.entry(i, j));
+	std::printf(" M %zu", (std::size_t)M.height());
+	for (std::size_t r = 0; r < M.height(); r++) {
+		typename QpSparseArray<F>::Row const& row = M.row(r);
+		std::printf(" %a %zu", (double)row.defaultvalue, (std::size_t)row.size);
+		for (std::size_t b = 0; b < row.size; b++) std::printf(" %zu %a", (std::size_t)row.entry[b].index, (double)row.entry[b].value);
+	}
+	std::printf("\n");
+}
+// MK id {entry(a,b)}*n*n : the kernel matrix under the current example order (after flipColumnsAndRows)
+template<class P, class Mx>
+static void dumpKernelPos(P& q, const std::string& id, Mx& matrix) {
+	std::size_t n = q.m_numExamples;
+	std::printf("MK %s", id.c_str());
+	for (std::size_t a = 0; a < n; a++) for (std::size_t b = 0; b < n; b++) std::printf(" %a", (double)matrix.entry(a, b));
 	std::printf("\n");
 }
 
@@ -326,23 +374,45 @@ static bool tablesConsistent(P& q, std::string& why) {
 
 template<class P, class Mx, class F>
 static void driveSteps(const std::string& id, Mx& matrix, QpSparseArray<F> const& M, ClassificationDataset const& data,
-		RealMatrix const& linear, double C, double eps, long shrinkPeriod, long nsteps, bool randsel, unsigned long seed) {
+		RealMatrix const& linear, double C, double eps, long shrinkPeriod, long nsteps, int mode, unsigned long seed) {
+	bool randsel = (mode & 1) != 0, addlin = (mode & 2) != 0;     // mode bit 1: addDeltaLinear events (what the bias solvers do between runs)
 	typedef Access<P> Ac;
 	P q(matrix, M, data.labels(), linear, C);
 	q.setShrinking(shrinkPeriod != 0);
 	std::mt19937 rng(seed);
 	std::size_t cp = q.m_cardP;
+	dumpHeader(q, id, matrix, M, C);
+	std::printf("MI %s", id.c_str());     // constructor inputs: labels, linear part
+	for (std::size_t i = 0; i < q.m_numExamples; i++) std::printf(" %u", data.labels().element(i));
+	for (std::size_t i = 0; i < q.m_numExamples; i++) for (std::size_t pp = 0; pp < cp; pp++) std::printf(" %a", linear(i, pp));
+	std::printf("\n");
+	dumpFull(q, id);
 	dumpState(q, "ST", id);
 	long it = 0; const char* endw = "steps";
 	for (; it < nsteps; it++) {
 		std::size_t v = 0, w = 0;
 		double acc = q.selectWorkingSet(v, w);
 		if (acc < eps) {
+			std::printf("MO %s unshrink\n", id.c_str());
 			q.unshrink();
+			dumpFull(q, id);
 			std::printf("EV %s unshrink\n", id.c_str()); dumpState(q, "ST", id);
 			if (q.checkKKT() < eps) { endw = "accuracy"; break; }
+			std::printf("MO %s shrink %a %d\n", id.c_str(), eps, (int)q.m_useShrinking);
 			q.shrink(eps);
+			dumpFull(q, id); dumpKernelPos(q, id, matrix);
 			std::printf("EV %s shrink\n", id.c_str()); dumpState(q, "ST", id);
+			q.selectWorkingSet(v, w);
+		}
+		if (addlin && (rng() % 5 == 0)) {
+			RealMatrix delta(q.m_numExamples, cp, 0.0);
+			std::printf("MO %s addlin", id.c_str());
+			for (std::size_t i = 0; i < q.m_numExamples; i++) for (std::size_t pp = 0; pp < cp; pp++) {
+				delta(i, pp) = ((int)(rng() % 9) - 4) / 8.0; std::printf(" %a", delta(i, pp)); }
+			std::printf("\n");
+			q.addDeltaLinear(delta);
+			dumpFull(q, id);
+			std::printf("EV %s addlin\n", id.c_str()); dumpState(q, "ST", id);
 			q.selectWorkingSet(v, w);
 		}
 		if (randsel && (rng() % 3 == 0) && q.m_activeVar >= 1) {
@@ -354,6 +424,7 @@ static void driveSteps(const std::string& id, Mx& matrix, QpSparseArray<F> const
 		double Qvv = q.m_variables[v].diagonal, Qww = q.m_variables[w].diagonal;
 		double kvw = (double)matrix.entry(ev, ew);
 		double Qvw = (double)M(q.m_classes * (cp * yv + pv) + yw, pw) * kvw;
+		std::printf("MO %s smo %zu %zu\n", id.c_str(), v, w);
 		std::printf("%s %s %a %zu %zu %zu %zu %zu %zu %zu %a %a %a %a %a", Ac::simplex ? "SS" : "SB", id.c_str(), C, cp,
 			q.m_examples[ev].index, pv, q.m_examples[ew].index, pw, ev, ew, q.m_gradient(v), q.m_gradient(w), Qvv, Qvw, Qww);
 		for (int side = 0; side < 2; side++) {
@@ -369,18 +440,23 @@ static void driveSteps(const std::string& id, Mx& matrix, QpSparseArray<F> const
 			std::printf(" %a", Ac::varsum(q, e));
 		}
 		std::printf("\n");
+		dumpFull(q, id);
 		dumpState(q, "ST", id);
 		// shrinkPeriod < 0: the schedule of QpSolver::solve (after the first step, then every max(1000, dimensions) steps)
 		bool doShrink = shrinkPeriod > 0 ? ((it % shrinkPeriod) == shrinkPeriod - 1)
 			: (shrinkPeriod < 0 && (it % (long)std::max<std::size_t>(1000, q.dimensions())) == 0);
 		if (doShrink) {
+			std::printf("MO %s shrink %a %d\n", id.c_str(), eps, (int)q.m_useShrinking);
 			q.shrink(eps);
+			dumpFull(q, id); dumpKernelPos(q, id, matrix);
 			std::printf("EV %s shrink\n", id.c_str()); dumpState(q, "ST", id);
 		}
 		std::string why;
 		if (!tablesConsistent(q, why)) { std::printf("BAD %s tables: %s\n", id.c_str(), why.c_str()); endw = "tables"; break; }
 	}
+	std::printf("MO %s unshrink\n", id.c_str());
 	q.unshrink();
+	dumpFull(q, id);
 	std::printf("EV %s unshrink\n", id.c_str()); dumpState(q, "ST", id);
 	RealMatrix sol = q.solution();
 	std::printf("SOL %s", id.c_str());
@@ -392,7 +468,7 @@ static void cmdSteps(const Tok& t) {
 	std::size_t p = 1;
 	std::string id = t.at(p++); std::string tn = t.at(p++); McSvm type = mcType(tn);
 	double C = D(t.at(p++)), eps = D(t.at(p++)); long sp = I(t.at(p++)), nsteps = I(t.at(p++));
-	bool randsel = I(t.at(p++)) != 0; unsigned long seed = (unsigned long)I(t.at(p++));
+	int randsel = (int)I(t.at(p++)); unsigned long seed = (unsigned long)I(t.at(p++));
 	std::string kn = t.at(p++); double gamma = D(t.at(p++));
 	std::size_t n = (std::size_t)I(t.at(p++)), d = (std::size_t)I(t.at(p++));
 	DataSpec ds; p = readData(t, p, n, d, ds);
@@ -411,6 +487,109 @@ static void cmdSteps(const Tok& t) {
 	std::printf("RUN %s %s %zu %zu %zu %d %a\n", id.c_str(), tn.c_str(), n, classes, (std::size_t)M.width(), (int)simplex, C);
 	if (simplex) driveSteps<QpMcSimplexDecomp<PM>, PM, double>(id, matrix, M, data, linear, C, eps, sp, nsteps, randsel, seed);
 	else driveSteps<QpMcBoxDecomp<PM>, PM, double>(id, matrix, M, data, linear, C, eps, sp, nsteps, randsel, seed);
+}
+
+// ------------------------------------------------------------------------------------------- LSTEPS / BLSTEPS
+template<class Solver>
+static void driveLinear(const std::string& id, const std::string& tn, ClassificationDataset const& data, DataSpec const& ds,
+		std::size_t classes, double C, double eps, long nepochs, unsigned long seed) {
+	std::size_t n = ds.n, d = ds.d, K = classes;
+	Solver solver(data, d, classes);
+	RealMatrix alpha(n, K + 1, 0.0); RealMatrix w(K, d, 0.0);
+	std::mt19937 rng(seed);
+	std::vector<std::size_t> order(n); for (std::size_t i = 0; i < n; i++) order[i] = i;
+	for (long ep = 0; ep < nepochs; ep++) {
+		std::shuffle(order.begin(), order.end(), rng);
+		for (std::size_t jj = 0; jj < n; jj++) {
+			std::size_t i = order[jj];
+			RealVector x_i = ds.x[i]; unsigned int y_i = ds.y[i];
+			double q = solver.m_xSquared(i);
+			blas::dense_vector_adaptor<double> a = row(alpha, i);
+			RealVector wx = prod(w, x_i);
+			RealVector g(K);
+			double kkt = solver.calcGradient(g, wx, a, C, y_i);
+			std::printf("LS %s %s %zu %zu %a %a %u %a", id.c_str(), tn.c_str(), K, d, C, eps, y_i, q);
+			for (std::size_t c = 0; c < K; c++) std::printf(" %a", wx(c));
+			for (std::size_t c = 0; c <= K; c++) std::printf(" %a", a(c));
+			for (std::size_t k = 0; k < d; k++) std::printf(" %a", x_i(k));
+			for (std::size_t c = 0; c < K; c++) for (std::size_t k = 0; k < d; k++) std::printf(" %a", w(c, k));
+			double gain = 0.0; RealVector mu(K, 0.0);
+			if (kkt > 0.0) {
+				gain = solver.solveSub(0.1 * eps, g, q, C, y_i, a, mu);
+				solver.updateWeightVectors(w, mu, i);
+			}
+			std::printf(" > %a %a", kkt, gain);
+			for (std::size_t c = 0; c <= K; c++) std::printf(" %a", a(c));
+			for (std::size_t c = 0; c < K; c++) std::printf(" %a", mu(c));
+			for (std::size_t c = 0; c < K; c++) for (std::size_t k = 0; k < d; k++) std::printf(" %a", w(c, k));
+			// monitor data: solveSub's internal gradient after the step, and the gradient recomputed from the new weights
+			RealVector wx2 = prod(w, x_i); RealVector g2(K);
+			solver.calcGradient(g2, wx2, a, C, y_i);
+			std::printf(" G");
+			for (std::size_t c = 0; c < K; c++) std::printf(" %a", g(c));
+			std::printf(" T");
+			for (std::size_t c = 0; c < K; c++) std::printf(" %a", g2(c));
+			std::printf("\n");
+		}
+	}
+	std::printf("LEND %s\n", id.c_str());
+}
+
+static void cmdLSteps(const Tok& t) {
+	std::size_t p = 1;
+	std::string id = t.at(p++); std::string tn = t.at(p++); McSvm type = mcType(tn);
+	double C = D(t.at(p++)), eps = D(t.at(p++)); long nepochs = I(t.at(p++)); unsigned long seed = (unsigned long)I(t.at(p++));
+	std::size_t n = (std::size_t)I(t.at(p++)), d = (std::size_t)I(t.at(p++));
+	DataSpec ds; p = readData(t, p, n, d, ds);
+	ClassificationDataset data = createLabeledDataFromRange(ds.x, ds.y);
+	std::size_t classes = numberOfClasses(data);
+	switch (type) {
+		case McSvm::WW: driveLinear<QpMcLinearWW<RealVector> >(id, tn, data, ds, classes, C, eps, nepochs, seed); break;
+		case McSvm::CS: driveLinear<QpMcLinearCS<RealVector> >(id, tn, data, ds, classes, C, eps, nepochs, seed); break;
+		case McSvm::LLW: driveLinear<QpMcLinearLLW<RealVector> >(id, tn, data, ds, classes, C, eps, nepochs, seed); break;
+		case McSvm::ATM: driveLinear<QpMcLinearATM<RealVector> >(id, tn, data, ds, classes, C, eps, nepochs, seed); break;
+		case McSvm::ATS: driveLinear<QpMcLinearATS<RealVector> >(id, tn, data, ds, classes, C, eps, nepochs, seed); break;
+		case McSvm::ADM: driveLinear<QpMcLinearADM<RealVector> >(id, tn, data, ds, classes, C, eps, nepochs, seed); break;
+		case McSvm::MMR: driveLinear<QpMcLinearMMR<RealVector> >(id, tn, data, ds, classes, C, eps, nepochs, seed); break;
+		case McSvm::ReinforcedSvm: driveLinear<QpMcLinearReinforced<RealVector> >(id, tn, data, ds, classes, C, eps, nepochs, seed); break;
+		default: throw std::runtime_error("no linear solver for this type");
+	}
+}
+
+static void cmdBLSteps(const Tok& t) {
+	std::size_t p = 1;
+	std::string id = t.at(p++);
+	double bound = D(t.at(p++)), reg = D(t.at(p++)), offset = D(t.at(p++)); long nepochs = I(t.at(p++)); unsigned long seed = (unsigned long)I(t.at(p++));
+	std::size_t n = (std::size_t)I(t.at(p++)), d = (std::size_t)I(t.at(p++));
+	DataSpec ds; p = readData(t, p, n, d, ds);
+	ClassificationDataset data = createLabeledDataFromRange(ds.x, ds.y);
+	QpBoxLinear<RealVector> solver(data, d);
+	solver.setOffset(offset);
+	for (long ep = 0; ep < nepochs; ep++) {
+		// the epoch's schedule: the same calls on the same generator state as solve() makes in its first epoch
+		// (all preferences are 1: one slot per example, coinToss with probability 0, then the shuffle)
+		random::globalRng.seed(seed + (unsigned long)ep);
+		std::vector<std::size_t> schedule(n);
+		for (std::size_t i = 0; i < n; i++) { random::coinToss(random::globalRng, 0.0); schedule[i] = i; }
+		std::shuffle(schedule.begin(), schedule.end(), random::globalRng);
+		std::printf("BL %s %a %a %a %zu %zu", id.c_str(), bound, reg, offset, n, d);
+		for (std::size_t i = 0; i < n; i++) std::printf(" %zu", schedule[i]);
+		for (std::size_t i = 0; i < n; i++) std::printf(" %a", solver.m_alpha(i));
+		for (std::size_t k = 0; k < d; k++) std::printf(" %a", solver.m_weights(k));
+		for (std::size_t i = 0; i < n; i++) std::printf(" %d", ds.y[i] > 0 ? 1 : -1);
+		for (std::size_t i = 0; i < n; i++) for (std::size_t k = 0; k < d; k++) std::printf(" %a", ds.x[i](k));
+		random::globalRng.seed(seed + (unsigned long)ep);
+		QpStoppingCondition stop; stop.minAccuracy = 0.0; stop.maxIterations = n;
+		QpSolutionProperties prop;
+		solver.solve(bound, reg, stop, &prop, false);
+		std::printf(" >");
+		for (std::size_t i = 0; i < n; i++) std::printf(" %a", solver.m_alpha(i));
+		for (std::size_t k = 0; k < d; k++) std::printf(" %a", solver.m_weights(k));
+		std::printf(" P");
+		for (std::size_t i = 0; i < n; i++) std::printf(" %a", solver.m_pref(i));
+		std::printf("\n");
+	}
+	std::printf("LEND %s\n", id.c_str());
 }
 
 // ------------------------------------------------------------------------------------------- main
@@ -439,6 +618,8 @@ static void handle(const Tok& t) {
 	else if (c == "RAW") { if (t.at(12) == "f") cmdRaw<float>(t); else cmdRaw<double>(t); }
 	else if (c == "LIN") cmdLin(t);
 	else if (c == "STEPS") cmdSteps(t);
+	else if (c == "LSTEPS") cmdLSteps(t);
+	else if (c == "BLSTEPS") cmdBLSteps(t);
 	else std::printf("UNKNOWN %s\n", c.c_str());
 }
 
